@@ -26,7 +26,7 @@ KINDS = {
 def families(tier):
     deep = tier == 'thorough'
     out = []
-    cfg = dict(bound=3 if deep else 2, cap=30000 if deep else 1200, window=0.25, max_targets=2)
+    cfg = dict(bound=4 if deep else 2, cap=30000 if deep else 1200, window=0.25, max_targets=2)
     types = ['ValueError', 'Custom', 'RuntimeError', 'KeyError', 'TimeoutError', 'Chained']
     for pos, kind, typ, place, par in itertools.product((0, 1, 2), KINDS, types, ['root', 'child_aw', 'child_ff', 'fwd_bus'], (False, True)):
         if not deep:
